@@ -144,7 +144,7 @@ var restoreCmd = &cobra.Command{
 			var targets []string
 			for _, arg := range args {
 				cleanedArg := filepath.Clean(arg)
-				cleanedArg = strings.ReplaceAll(cleanedArg, `\`, "/")
+				cleanedArg = filepath.ToSlash(cleanedArg)
 
 				_, _, isRegistered := client.Idx.GetEntry([]byte(cleanedArg))
 				node, isNodeFound := object.GetNode(tree.Children, cleanedArg)
@@ -204,7 +204,7 @@ var restoreCmd = &cobra.Command{
 			var targets []string
 			for _, arg := range args {
 				cleanedArg := filepath.Clean(arg)
-				cleanedArg = strings.ReplaceAll(cleanedArg, `\`, "/")
+				cleanedArg = filepath.ToSlash(cleanedArg)
 
 				if _, _, isRegistered := client.Idx.GetEntry([]byte(cleanedArg)); isRegistered { // file
 					targets = append(targets, cleanedArg)
